@@ -310,11 +310,16 @@ def c02g(ck, prog):
     R = "C02-g PAIR query value extent"
     it = prog.one(r"^ohkami::request::query::QueryParams::iter$")
     n = 0
-    for g in [it] + prog.descendants(it.key):
+    mod = [g for g in prog.fns.values() if g.crate == "ohkami" and g.key.startswith("ohkami::request::query::")]
+    for g in sorted(set([it] + prog.descendants(it.key) + mod), key=lambda x: x.key):
         for bb, kind, pl in paths.ret_sites(g):
-            if kind != "Some" or not (isinstance(pl, list) and pl[0] == "agg"):
+            if kind == "other" and isinstance(pl, list) and pl[0] == "agg" and pl[1].get("k") == "tuple" and len(pl[2]) == 2:
+                cand = [("other", pl)]       # `|(k, v)| (decode(k), decode(v))`
+            elif kind == "Some" and isinstance(pl, list) and pl[0] == "agg" and pl[2] and pl[2][0][0] in ("c", "m"):
+                cand = paths.leaf_values(g, pl[2][0])
+            else:
                 continue
-            for leaf in paths.leaf_values(g, pl[2][0]):
+            for leaf in cand:
                 if not (leaf[0] == "other" and isinstance(leaf[1], list) and leaf[1][0] == "agg" and leaf[1][1].get("k") == "tuple" and len(leaf[1][2]) == 2):
                     continue
                 n += 1
